@@ -107,7 +107,12 @@ def r51_clamp(repo, ctx, lo, hi):
                     tn |= U.target_names(t)
         if tn & need:
             rel.insert(0, s)
-            need |= U.names_in(s)
+            # the step proposal is an atom of the evaluation: what it is computed from does not belong to the clamp chain
+            atom_names = set()
+            for c in U.calls(s):
+                if U.dump(c) == prop_key:
+                    atom_names |= {id(x) for x in ast.walk(c)}
+            need |= {x.id for x in ast.walk(s) if isinstance(x, ast.Name) and id(x) not in atom_names}
     var = None
     lo_k, hi_k = U.dump(ast.parse(f'self.{lo}', mode='eval').body), U.dump(ast.parse(f'self.{hi}', mode='eval').body)
     n = 0
